@@ -1163,7 +1163,29 @@ func c15Whole(c *Ctx) {
 					if !isCall || !IsCallTo(cl, "runtime.Callers") || len(cl.Call.Args) != 2 {
 						return "use(cut to " + st.Desc(sl.High) + ")"
 					}
-					if resolve(st, sl.X) != resolve(st, cl.Call.Args[1]) {
+					// the same memory from its start: s, s[:k] and s[:k][:m] all begin where s begins
+					fromStart := func(v ssa.Value) ssa.Value {
+						v = resolve(st, v)
+						for k := 0; k < 6; k++ {
+							in, isSl := v.(*ssa.Slice)
+							if !isSl || in.Low != nil {
+								break
+							}
+							v = resolve(st, in.X)
+						}
+						return v
+					}
+					sameMem := func(a, b ssa.Value) bool {
+						if a == b {
+							return true
+						}
+						// two loads of one field that nothing was stored into on this path (a store would make the later load
+						// resolve to the stored value)
+						la, okA := a.(*ssa.UnOp)
+						lb, okB := b.(*ssa.UnOp)
+						return okA && okB && la.Op == token.MUL && lb.Op == token.MUL && st.Desc(a) == st.Desc(b)
+					}
+					if resolve(st, sl.X) != resolve(st, cl.Call.Args[1]) && !sameMem(fromStart(sl.X), fromStart(cl.Call.Args[1])) {
 						return "use(" + st.Desc(sl.X) + " cut to the count of a capture into " + st.Desc(cl.Call.Args[1]) + ")"
 					}
 					return "use(cut)"
